@@ -21,7 +21,7 @@ RULE = (
     "off / re-enabled by <%page>. distinct = by emitted template text; non-trivial = contains a loop using "
     "`loop` or an exception/return/break path that was actually taken (marked by the model)."
 )
-RULE += " added since: inner loops whose body reads only loop.parent.*, loop.parent is None at top level, several % except clauses on one % try, and the enable_loop matrix {constructor option on/off} x {<%page enable_loop> absent/True/False} through Template and TemplateLookup. `loop` read inside closures written in a `% for` body (anonymous block, <%call> bodies, nested defs; one and two loop levels; with and without a direct read in the loop body). `loop` read only in tag attributes (call expression, <%ns:def> / <%include> attributes, args=, filter= of <%text> / <%block>, filter arguments). iterables whose text holds colons (slices, dict display, lambda, 'a:b')."
+RULE += " added since: inner loops whose body reads only loop.parent.*, loop.parent is None at top level, several % except clauses on one % try, and the enable_loop matrix {constructor option on/off} x {<%page enable_loop> absent/True/False} through Template and TemplateLookup. `loop` read inside closures written in a `% for` body (anonymous block, <%call> bodies, nested defs; one and two loop levels; with and without a direct read in the loop body). `loop` read only in tag attributes (call expression, <%ns:def> / <%include> attributes, args=, filter= of <%text> / <%block>, filter arguments). iterables whose text holds colons (slices, dict display, lambda, 'a:b'). generators whose pulls are observable and one that fails on its third pull."
 ASSUMPTIONS = [
     "the dual Python emission and the loop-record class in checks/c03.py state the intended semantics",
     "`% else:` after `% try:` is not generated (Mako lists only except/finally as try continuations)",
